@@ -473,3 +473,23 @@ class Poly:
                     ms.append(f"exp({Fraction(p, UNIT)}i*{mono})")
             parts.append(f"({c})" + ("*" + "*".join(ms) if ms else ""))
         return " + ".join(parts)
+
+
+def poly_diff(p: Poly, name: str) -> Poly:
+    """d/d(name) of a Poly whose dependence on `name` is polynomial and through exp(i*name*k/UNIT) generators"""
+    out = Poly()
+    for key, c in p.t.items():
+        for idx, (g, pw) in enumerate(key):
+            if g == ("p", name):
+                # d/dx x^pw = pw x^(pw-1)
+                rest = tuple(k for j, k in enumerate(key) if j != idx)
+                nk = _mono_mul(rest, ((g, pw - 1),) if pw - 1 != 0 else ())
+                out = out + Poly({nk: c * Cyc.rat(pw)})
+            elif g[0] == "e":
+                mono = g[1]
+                if any(nm == name for nm, _ in mono):
+                    if mono != ((name, 1),):
+                        raise Unsupported("derivative through a mixed monomial generator")
+                    # d/dx exp(i x /UNIT)^pw = i*pw/UNIT * same
+                    out = out + Poly({key: c * I_ * Cyc.rat(Fraction(pw, UNIT))})
+    return out
